@@ -182,7 +182,77 @@ def one_case(ctx: Ctx, stream: str, i: int, steps: int) -> None:
                 pool.append(res)
 
 
+def grouping_case(ctx: Ctx, stream: str, i: int) -> None:
+    """every parenthesisation of products of three or four factors containing an operator X, its inverse X.I (closed
+    form or lazy) and non-commuting neighbours: the denoted matrix must not depend on the grouping"""
+    from furax._base.core import InverseOperator
+    rng = ctx.rng(stream, i)
+    n = rng.choice([2, 3])
+    s = gen.S(n)
+    kind = rng.choice(['diag', 'toeplitz', 'dense'])
+    if kind == 'diag':
+        x = gen.mk_diagonal(rng, s)
+        xi = x.I
+    elif kind == 'toeplitz':
+        x = gen.mk_toeplitz(rng, s, spd=True)
+        xi = InverseOperator(x)
+    else:
+        # a symmetric positive definite dense operator (the lazy inverse uses conjugate gradients: A4)
+        from furax._base.dense import DenseBlockDiagonalOperator
+        g = np.array([[rng.randint(-1, 2) for _ in range(n)] for _ in range(n)], dtype=np.float64)
+        spd = g @ g.T + 4 * np.eye(n)
+        x = DenseBlockDiagonalOperator(gen.arr(spd), s, 'ij...,j...->i...')
+        xi = InverseOperator(x)
+    b = gen.mk_dense(rng, s, square=True)       # does not commute with x in general
+    c = gen.mk_toeplitz(rng, s)
+    pos = rng.choice([0, 1, 2])
+    seqs = [[xi, b, x], [x, b, xi], [xi, x, b], [b, x, xi], [x, xi, b], [b, xi, x], [xi, b, c, x], [x, c, xi, b]]
+    seq = rng.choice(seqs)
+    mats = [np.linalg.inv(gen.dense(x)) if o is xi else gen.dense(o) for o in seq]
+    want = mats[0]
+    for mm in mats[1:]:
+        want = want @ mm
+
+    def groupings(ops):
+        if len(ops) == 1:
+            yield ops[0], type(ops[0]).__name__
+            return
+        for k in range(1, len(ops)):
+            for l, ln in groupings(ops[:k]):
+                for r, rn in groupings(ops[k:]):
+                    yield (lambda l=l, r=r: l @ r), f'({ln} @ {rn})'
+
+    def build(g):
+        return g() if callable(g) and not hasattr(g, 'mv') else g
+
+    def materialise(ops):
+        # all binary bracketings, built bottom-up with the real `@`
+        if len(ops) == 1:
+            return [(ops[0], 'X' if ops[0] is x else 'X.I' if ops[0] is xi else type(ops[0]).__name__[0])]
+        out = []
+        for k in range(1, len(ops)):
+            for l, ln in materialise(ops[:k]):
+                for r, rn in materialise(ops[k:]):
+                    st, v = safe(lambda: l @ r)
+                    if st == 'ok':
+                        out.append((v, f'({ln}@{rn})'))
+                    else:
+                        ctx.fail(stream, i, f'grouping-raises:{st}', f'{ln} @ {rn} raised {st}', {'kind': kind})
+        return out
+    tol = 2e-3 if kind != 'diag' else 1e-4
+    for op, label in materialise(seq):
+        st, m = safe(gen.dense, op)
+        if st != 'ok' or not gen.close(m, want, tol):
+            ctx.fail(stream, i, f'grouping-changes-map:{kind}', f'{label} does not denote the product of the matrices '
+                     f'(it depends on the parenthesisation)', {'kind': kind, 'grouping': label})
+        ctx.case(f'grouping:{kind}:{label}:{i}', True, sample={'kind': kind, 'grouping': label})
+    ctx.count('grouping:' + kind)
+
+
 def run(ctx: Ctx) -> None:
+    for i in range(40 if ctx.tier == 'quick' else 800):
+        if ctx.want('grouping', i):
+            grouping_case(ctx, 'grouping', i)
     n = 60 if ctx.tier == 'quick' else 1200
     steps = 7 if ctx.tier == 'quick' else 10
     for i in range(n):
